@@ -81,7 +81,8 @@ def strat_sharded(tier):
   @st.composite
   def s(draw):
     return {'data': _data(draw, 12), 'shape': {'filter': draw(st.booleans()), 'second_agg': draw(st.booleans()),
-                                               'num_threads': draw(st.sampled_from([0, 0, 0, 2]))},
+                                               'num_threads': draw(st.sampled_from([0, 0, 0, 2])),
+                                               'chain2': draw(st.sampled_from([False, False, True]))},
             'workers': draw(st.sampled_from([1, 2, 2, 3])), 'shards': draw(st.sampled_from([1, 2, 2, 3, 3, 4, 6])),
             'iterate_batch_size': draw(st.sampled_from([1, 1, 2, 3])), 'prefetch_size': draw(st.integers(1, 3)),
             'with_batch_output': draw(st.sampled_from([True, True, False])), 'rseed': draw(st.integers(0, 10**6))}
